@@ -1,7 +1,7 @@
 """Run all checks against held-out seeds under /tmp/seed2/<PID>/out/<n>/patch.diff"""
 import glob, json, os, subprocess, sys, tempfile, shutil
 HERE = os.path.dirname(os.path.dirname(os.path.abspath(__file__)))
-PIDS = ['C%02d' % i for i in range(1, 21) if i != 15]
+PIDS = ['C%02d' % i for i in range(1, 21)]
 for pid in sys.argv[1:]:
     for sd in sorted(glob.glob('/tmp/seed5/%s/out/[0-9]*' % pid)):
         patch = os.path.join(sd, 'patch.diff')
